@@ -119,3 +119,243 @@ Proof.
   specialize (H rx_schema [77] [8; 1; 8; 2] _ false false 9%nat Hd ltac:(cbn; lia)).
   unfold rx_read in Hr. rewrite Hr in H. discriminate H.
 Qed.
+
+(* ------------------------------------------------------------------ valid non-canonical input on which reader and reference agree:
+   the fields in ANY order (already in T2: the order of the list) with unknown fields of every wire type in between *)
+Inductive item := IKnown (n : Z) (v : pval) | IUnk (f : wfield).
+Definition items_wire (its : list item) : list wfield :=
+  flat_map (fun it => match it with IKnown n v => wfld n v | IUnk f => [f] end) its.
+Definition known_fields (its : list item) : pmsg :=
+  flat_map (fun it => match it with IKnown n v => [(n, v)] | IUnk _ => [] end) its.
+
+Lemma skip_val_enc w r : wf_wval w = true -> skip_val (wt_of_wval w) (wenc_val w ++ r) = r.
+Proof.
+  intros Hw. destruct w as [v|v|v|bs]; cbn [wf_wval wt_of_wval wenc_val] in *; unfold skip_val; cbn [Z.eqb Pos.eqb].
+  - apply andb_true_iff in Hw as [H1 H2]. apply Z.leb_le in H1. apply Z.ltb_lt in H2. rewrite rd_varint_enc by lia. reflexivity.
+  - rewrite (take_le_enc 8). reflexivity.
+  - rewrite (take_le_enc 4). reflexivity.
+  - apply Z.ltb_lt in Hw. rewrite <- app_assoc. rewrite rd_bytes_enc by exact Hw. reflexivity.
+Qed.
+
+Section Unknowns.
+  Variable S : schema.
+  Variable byname : bool.
+  Variable rec : ftype -> bool -> list Z -> option (gval * list Z).
+  Variable f : nat.
+  Hypothesis Hrec : rrec_ok S byname rec f.
+  Variable md : mdesc.
+
+  Definition item_ok (it : item) : Prop :=
+    match it with
+    | IKnown n v => rfield_ok S f md (n, v)
+    | IUnk fl => find_field md (fst fl) = None /\ wf_wfield fl = true
+    end.
+
+  Lemma items_start n its : Forall item_ok its -> (exists fd, find_field md n = Some fd) ->
+    (forall nv, In nv (known_fields its) -> fst nv <> n) -> other_start n (wenc (items_wire its)).
+  Proof.
+    intros Hall [fd Hfd] Hne. destruct its as [|it its]; [left; reflexivity|right].
+    inversion Hall as [|? ? Hit _]; subst. destruct it as [n' v'|[u w]]; cbn [item_ok] in Hit.
+    - destruct Hit as [fd' [Hfd' [Hn' [Hw _]]]]. cbn [fst snd] in *.
+      destruct (wfld_fvals S _ _ v' n' Hw) as [Ew Hnn]. destruct (fvals v') as [|w ws]; [contradiction|].
+      exists n', (wt_of_wval w), (wenc_val w ++ wenc (map (pair n') ws) ++ wenc (items_wire its)).
+      split.
+      { unfold items_wire. cbn [flat_map]. rewrite wenc_app, Ew. cbn [map]. rewrite wenc_cons. unfold wenc_field.
+        cbn [fst snd]. rewrite <- !app_assoc. reflexivity. }
+      split; [exact Hn'|]. split; [destruct (wt_of_wval_cases w) as [E|[E|[E|E]]]; rewrite E; lia|].
+      apply (Hne (n', v')). cbn [known_fields flat_map]. left. reflexivity.
+    - destruct Hit as [Hu Hwf]. cbn [fst] in Hu. unfold wf_wfield in Hwf. cbn [fst snd] in Hwf.
+      apply andb_true_iff in Hwf as [Hwf Hwv]. apply andb_true_iff in Hwf as [H1 H2]. apply Z.leb_le in H1. apply Z.leb_le in H2.
+      exists u, (wt_of_wval w), (wenc_val w ++ wenc (items_wire its)).
+      split.
+      { unfold items_wire. cbn [flat_map]. change ([(u, w)] ++ ?x) with ((u, w) :: x). rewrite wenc_cons. unfold wenc_field.
+        cbn [fst snd]. rewrite <- !app_assoc. reflexivity. }
+      split; [lia|]. split; [destruct (wt_of_wval_cases w) as [E|[E|[E|E]]]; rewrite E; lia|].
+      intros ->. congruence.
+  Qed.
+
+  Lemma read_fields_items its : Forall item_ok its -> nodupb Z.eqb (map fst (known_fields its)) = true ->
+    forall fuel, (length (wenc (items_wire its)) < fuel)%nat ->
+    read_fields false rec fuel md (wenc (items_wire its))
+    = Some (map (fun nv => (the_fd md (fst nv), gval_of S byname true (fd_type (the_fd md (fst nv))) (snd nv))) (known_fields its)).
+  Proof.
+    induction 1 as [|it its Hit Hall IH]; intros Hnd fuel Hf.
+    - cbn. destruct fuel; reflexivity.
+    - destruct it as [n v|[u w]]; cbn [item_ok] in Hit.
+      + cbn [known_fields flat_map app map nodupb] in Hnd |- *. fold (known_fields its) in Hnd |- *.
+        apply andb_true_iff in Hnd as [Hx Hnd]. apply negb_true_iff in Hx. cbn [fst] in Hx.
+        assert (Hne : forall nv, In nv (known_fields its) -> fst nv <> n).
+        { intros nv Hin E. assert (existsb (Z.eqb n) (map fst (known_fields its)) = true); [|congruence].
+          apply existsb_exists. exists (fst nv). split; [apply in_map; exact Hin|apply Z.eqb_eq; symmetry; exact E]. }
+        destruct Hit as [fd [Hfd [Hn [Hw [Hz Hd]]]]]. cbn [fst snd] in *.
+        pose proof (items_start n its Hall (ex_intro _ fd Hfd) Hne) as Ho.
+        destruct (read_field_ok S byname rec f Hrec (fd_label fd) (fd_type fd) v n (wenc (items_wire its)) Hn Hw Hz Hd Ho)
+          as [wt [r [b0 [t0 [Ene [Hwt [Etag Hra]]]]]]].
+        assert (Ebs : wenc (items_wire (IKnown n v :: its)) = wenc (wfld n v) ++ wenc (items_wire its)).
+        { unfold items_wire. cbn [flat_map]. apply wenc_app. }
+        rewrite Ebs in *.
+        destruct fuel as [|fuel]; [lia|].
+        rewrite read_fields_S by (rewrite Ene; discriminate).
+        rewrite Etag at 1. rewrite consume_tag_enc by assumption. rewrite Hfd.
+        rewrite Hra. rewrite IH; [|exact Hnd|rewrite Ene in Hf; cbn in Hf; rewrite app_length in Hf; lia].
+        assert (Et : the_fd md n = fd) by (unfold the_fd; rewrite Hfd; reflexivity).
+        cbn [fst snd]. rewrite Et. reflexivity.
+      + cbn [known_fields flat_map app] in Hnd |- *. fold (known_fields its) in Hnd |- *.
+        destruct Hit as [Hu Hwf]. cbn [fst] in Hu. unfold wf_wfield in Hwf. cbn [fst snd] in Hwf.
+        apply andb_true_iff in Hwf as [Hwf Hwv]. apply andb_true_iff in Hwf as [H1 H2]. apply Z.leb_le in H1. apply Z.leb_le in H2.
+        assert (Ebs : wenc (items_wire (IUnk (u, w) :: its)) =
+                      varint_enc (u * 8 + wt_of_wval w) ++ wenc_val w ++ wenc (items_wire its)).
+        { unfold items_wire. cbn [flat_map]. change ([(u, w)] ++ ?x) with ((u, w) :: x). rewrite wenc_cons. unfold wenc_field.
+          cbn [fst snd]. rewrite <- !app_assoc. reflexivity. }
+        rewrite Ebs in *.
+        assert (Hwr : 0 <= wt_of_wval w < 8) by (destruct (wt_of_wval_cases w) as [E|[E|[E|E]]]; rewrite E; lia).
+        destruct fuel as [|fuel]; [lia|]. destruct (varint_enc_cons (u * 8 + wt_of_wval w)) as [b0 [t0 E0]].
+        rewrite read_fields_S by (apply (app_cons_ne _ _ _ _ E0)).
+        rewrite consume_tag_enc by lia. rewrite Hu. rewrite skip_val_enc by exact Hwv.
+        apply IH; [exact Hnd|].
+        apply (length_app_cons_lt _ _ _ _ _ E0) in Hf. rewrite app_length in Hf. lia.
+  Qed.
+End Unknowns.
+
+(* ---- the reference decoder drops unknown fields wherever they stand *)
+Section GroupFilter.
+  Variable K : Z -> bool.
+  Let kg (p : Z * list wval) := K (fst p).
+  Let kf (p : wfield) := K (fst p).
+
+  Lemma gvals_filter n g : K n = true -> gvals n (filter kg g) = gvals n g.
+  Proof.
+    intros Hn. induction g as [|[m vs] g IH]; [reflexivity|]. cbn [filter gvals]. unfold kg at 1. cbn [fst].
+    destruct (Z.eqb_spec m n) as [->|Hne].
+    - rewrite Hn. cbn [gvals]. rewrite Z.eqb_refl. reflexivity.
+    - destruct (K m); cbn [gvals]; [destruct (Z.eqb_spec m n); [contradiction|]|]; exact IH.
+  Qed.
+  Lemma filter_cons_kg m vs g : filter kg ((m, vs) :: g) = if K m then (m, vs) :: filter kg g else filter kg g.
+  Proof. reflexivity. Qed.
+
+  Lemma gremove_absent_k n g : (forall p, In p g -> K (fst p) = true) -> K n = false -> gremove n g = g.
+  Proof.
+    intros Hall Hn. induction g as [|[m vs] g IH]; [reflexivity|]. cbn [gremove].
+    destruct (Z.eqb_spec m n) as [->|_]; [specialize (Hall (n, vs) (or_introl eq_refl)); cbn in Hall; congruence|].
+    f_equal. apply IH. intros p Hp. apply Hall. right. exact Hp.
+  Qed.
+  Lemma filter_gremove_dropped n g : K n = false -> filter kg (gremove n g) = filter kg g.
+  Proof.
+    intros Hn. induction g as [|[m vs] g IH]; [reflexivity|]. cbn [gremove].
+    destruct (Z.eqb_spec m n) as [->|Hne].
+    - rewrite filter_cons_kg, Hn. reflexivity.
+    - rewrite !filter_cons_kg, IH. reflexivity.
+  Qed.
+  Lemma gremove_filter n g : K n = true -> filter kg (gremove n g) = gremove n (filter kg g).
+  Proof.
+    intros Hn. induction g as [|[m vs] g IH]; [reflexivity|]. cbn [gremove]. rewrite filter_cons_kg.
+    destruct (Z.eqb_spec m n) as [->|Hne].
+    - rewrite Hn. cbn [gremove]. rewrite Z.eqb_refl. reflexivity.
+    - rewrite filter_cons_kg. destruct (K m).
+      + cbn [gremove]. destruct (Z.eqb_spec m n); [contradiction|]. rewrite IH. reflexivity.
+      + exact IH.
+  Qed.
+  Lemma group_filter w : filter kg (group w) = group (filter kf w).
+  Proof.
+    induction w as [|[n v] w IH]; [reflexivity|]. cbn [group]. rewrite filter_cons_kg.
+    change (filter kf ((n, v) :: w)) with (if K n then (n, v) :: filter kf w else filter kf w).
+    destruct (K n) eqn:E.
+    - cbn [group]. rewrite <- IH. rewrite gvals_filter by exact E. rewrite gremove_filter by exact E. reflexivity.
+    - rewrite filter_gremove_dropped by exact E. exact IH.
+  Qed.
+End GroupFilter.
+
+Lemma dec_groups_filter rec md g :
+  dec_groups rec md g = dec_groups rec md (filter (fun p => match find_field md (fst p) with Some _ => true | None => false end) g).
+Proof.
+  induction g as [|[n vs] g IH]; [reflexivity|]. cbn [dec_groups filter fst].
+  destruct (find_field md n) as [fd|] eqn:E.
+  - cbn [dec_groups]. rewrite E, IH. reflexivity.
+  - exact IH.
+Qed.
+
+Lemma msg_wire_wf S name md fs : find_msg S name = Some md -> wf_msg S name fs = true -> wf_wire (msg_wire fs) = true.
+Proof.
+  intros Em Hw. unfold wf_msg in Hw. cbn [wf_fld] in Hw. rewrite Em in Hw. apply andb_true_iff in Hw as [_ Hall].
+  unfold wf_wire, msg_wire. rewrite forallb_flat_map. apply forallb_forall. intros [n v] Hin.
+  rewrite forallb_forall in Hall. specialize (Hall _ Hin). cbn [fst snd] in *.
+  destruct (find_field md n) as [fd|]; [|discriminate].
+  apply andb_true_iff in Hall as [Hn Hwv]. apply andb_true_iff in Hn as [H1 H2]. apply Z.leb_le in H1. apply Z.leb_le in H2.
+  destruct (wfld_fvals S _ _ v n Hwv) as [Ew _]. rewrite Ew.
+  apply (map_pair_wf n (fvals v)); [lia|]. apply (fvals_wf S _ _ v Hwv).
+Qed.
+
+Definition unk_ok (md : mdesc) (it : item) : Prop :=
+  match it with IKnown _ _ => True | IUnk fl => find_field md (fst fl) = None /\ wf_wfield fl = true end.
+
+Lemma items_filter S name md its : find_msg S name = Some md -> wf_msg S name (known_fields its) = true ->
+  Forall (unk_ok md) its ->
+  filter (fun p : wfield => match find_field md (fst p) with Some _ => true | None => false end) (items_wire its)
+  = msg_wire (known_fields its) /\ wf_wire (items_wire its) = true.
+Proof.
+  intros Em Hw Hall. pose proof (msg_wire_wf S name md _ Em Hw) as Hwf.
+  unfold wf_msg in Hw. cbn [wf_fld] in Hw. rewrite Em in Hw. apply andb_true_iff in Hw as [_ Hfs].
+  rewrite forallb_forall in Hfs. revert Hfs Hwf.
+  induction Hall as [|it its Hit _ IH]; intros Hfs Hwf; [split; reflexivity|].
+  destruct it as [n v|[u w]]; cbn [unk_ok] in Hit.
+  - cbn [known_fields items_wire flat_map app] in *. fold (known_fields its) in *. fold (items_wire its) in *.
+    pose proof (Hfs (n, v) (or_introl eq_refl)) as Hnv. cbn [fst snd] in Hnv.
+    destruct (find_field md n) as [fd|] eqn:Ef; [|discriminate].
+    apply andb_true_iff in Hnv as [_ Hwv]. destruct (wfld_fvals S _ _ v n Hwv) as [Ew _].
+    unfold msg_wire in Hwf |- *. cbn [flat_map fst snd] in Hwf |- *. unfold wf_wire in Hwf. rewrite forallb_app in Hwf.
+    apply andb_true_iff in Hwf as [Hwf1 Hwf2].
+    destruct (IH (fun x Hx => Hfs x (or_intror Hx)) Hwf2) as [IH1 IH2].
+    split.
+    + rewrite filter_app. unfold msg_wire in IH1. rewrite IH1. f_equal.
+      rewrite Ew. clear Ew. generalize (fvals v) as l. intros l. induction l as [|x l IHl]; [reflexivity|].
+      cbn [map filter fst]. rewrite Ef, IHl. reflexivity.
+    + unfold wf_wire. rewrite forallb_app, Hwf1. exact IH2.
+  - cbn [known_fields items_wire flat_map app] in *. fold (known_fields its) in *. fold (items_wire its) in *.
+    destruct Hit as [Hu Hwfl]. cbn [fst] in Hu. destruct (IH Hfs Hwf) as [IH1 IH2]. split.
+    + cbn [filter fst]. rewrite Hu. exact IH1.
+    + cbn [wf_wire forallb]. rewrite Hwfl. exact IH2.
+Qed.
+
+(* the proved reference decoder on such an input: the known fields, in order *)
+Theorem decode_items S name md its fuel :
+  find_msg S name = Some md -> wf_msg S name (known_fields its) = true -> Forall (unk_ok md) its ->
+  (depth (VMsg (known_fields its)) <= fuel)%nat ->
+  decode_msg S fuel name (wenc (items_wire its)) = Some (known_fields its).
+Proof.
+  intros Em Hw Hall Hd. destruct (items_filter S name md its Em Hw Hall) as [Hfil Hwf].
+  pose proof (decode_encode_msg S name (known_fields its) fuel Hw Hd) as Hcan.
+  destruct fuel as [|f]; [cbn [depth] in Hd; lia|].
+  cbn [decode_msg] in Hcan |- *. rewrite Em in Hcan |- *.
+  unfold encode_msg in Hcan. rewrite wdec_wenc in Hcan by (apply (msg_wire_wf S name md _ Em Hw)).
+  rewrite wdec_wenc by exact Hwf.
+  rewrite dec_groups_filter. rewrite (group_filter (fun n => match find_field md n with Some _ => true | None => false end)).
+  rewrite Hfil. exact Hcan.
+Qed.
+
+Lemma items_ok_all S f md its : Forall (rfield_ok S f md) (known_fields its) -> Forall (unk_ok md) its -> Forall (item_ok S f md) its.
+Proof.
+  intros Hk Hu. induction Hu as [|it its Hit _ IH]; [constructor|].
+  destruct it as [n v|fl]; cbn [known_fields flat_map app] in Hk; fold (known_fields its) in Hk.
+  - inversion Hk; subst. constructor; [assumption|apply IH; assumption].
+  - constructor; [exact Hit|apply IH; exact Hk].
+Qed.
+
+(* (T2 general, the part that holds) permuted fields with unknown fields of every wire type in between: the reader answers
+   the Go value of the message the proved reference decoder reads *)
+Theorem read_any_refines_decode_unknowns S byname name md its fuel :
+  names_hyp S byname -> find_msg S name = Some md ->
+  wf_msg S name (known_fields its) = true -> sizes_ok (VMsg (known_fields its)) = true ->
+  Forall (unk_ok md) its -> (depth (VMsg (known_fields its)) < fuel)%nat ->
+  decode_msg S fuel name (wenc (items_wire its)) = Some (known_fields its) /\
+  read_any_desc S false byname fuel LSingular (TMsg name) false (wenc (items_wire its))
+  = Some (gtop S byname true name (known_fields its), []).
+Proof.
+  intros Hnm Em Hw Hz Hall Hd. split; [apply (decode_items S name md its fuel Em Hw Hall); lia|].
+  destruct fuel as [|f]; [lia|]. unfold read_any_desc, read_any. unfold wf_msg in Hw.
+  destruct (rfields_forall S f name md (known_fields its) Em Hw Hz Hd) as [Hk Hnd].
+  cbn [read_base andb]. rewrite Em, take_all.
+  rewrite (read_fields_items S byname (read_base S false byname f) f (read_base_ok S false byname Hnm f) md its
+             (items_ok_all S f md its Hk Hall) Hnd) by lia.
+  rewrite (build_msg_ok S byname Hnm f name md (known_fields its) Em Hk Hnd). unfold gtop.
+  destruct (known_fields its); reflexivity.
+Qed.
